@@ -70,7 +70,8 @@ def rule_fifo(ctx):
     ok = bool(e) and bool(muts) and all(cfg.must_pass(b, e) for b in waits + [m["bb"] for m in muts])
     ctx.ob(R, "lock before wait/sleep/reserve", ok, "the acquire mutex is held when waiting for reservations, sleeping and reserving" if ok else "waiting or reserving is reachable without the acquire mutex: callers are not served in arrival order", f.loc())
     # the guard local is not dropped between lock and reservation
-    guard_locals = [l for l, n in f.var_names().items() if n == "acquire"]
+    # the guard is identified by its type (the guard of the mutex that protects a watch::Receiver<State>), not by its name
+    guard_locals = [i for i, ty in enumerate(f.locals) if ty.s.startswith("tokio::sync::mutex::MutexGuard<") and "limiter::State" in ty.s and f.var_names().get(i) is not None]
     starts = [t for _, t in e]
     okd = bool(guard_locals) and bool(muts)
     if okd:
@@ -79,6 +80,12 @@ def rule_fifo(ctx):
             t = f.blocks[bi]["t"]
             if t["k"] == "drop" and t["p"]["l"] in guard_locals and not t["p"].get("pr") and bi != muts[0]["bb"]:
                 okd = False
+            # handed away by value (drop(guard), or moved into anything else) before the reservation
+            if t["k"] == "call" and bi != muts[0]["bb"] and any("m" in a and not a["m"].get("pr") and a["m"]["l"] in guard_locals for a in t["args"]):
+                okd = False
+            for st in f.blocks[bi]["s"]:
+                if st["k"] == "assign" and st["r"]["k"] == "use" and "m" in st["r"]["o"] and not st["r"]["o"]["m"].get("pr") and st["r"]["o"]["m"]["l"] in guard_locals and bi != muts[0]["bb"]:
+                    okd = False
     ctx.ob(R, "guard alive until reservation", okd, "the mutex guard `acquire` is not dropped on any path from lock to reservation" if okd else "the acquire guard is released before the permits are reserved", f.loc())
 
 
